@@ -475,3 +475,36 @@ Proof.
 Qed.
 End Consequences.
 
+
+(* ---- the list has no duplicates (hypothesis of the limit theorems in NackGenProofs) ---- *)
+
+Lemma NoDup_zrange n : forall a, NoDup (zrange a n).
+Proof.
+  induction n as [|n IH]; intros a; simpl; constructor; auto.
+  rewrite zrange_In. lia.
+Qed.
+
+Lemma NoDup_map_inj_in {A B} (f : A -> B) l :
+  (forall x y, In x l -> In y l -> f x = f y -> x = y) -> NoDup l -> NoDup (map f l).
+Proof.
+  induction l as [|a l IH]; intros Hinj Hnd; simpl; [constructor|].
+  inversion Hnd; subst. constructor.
+  - rewrite in_map_iff. intros (y & Hy & Hin). apply Hinj in Hy; [subst; auto|right; auto|left; auto].
+  - apply IH; auto. intros x y Hx Hy. apply Hinj; right; auto.
+Qed.
+
+Lemma spec_missing_NoDup sz skip st : valid_size sz -> 0 <= skip -> NoDup (spec_missing sz skip st).
+Proof.
+  intros H Hk. pose proof (valid_size_range _ H). destruct st as [s|]; [|constructor].
+  cbn [spec_missing]. apply NoDup_map_inj_in.
+  - intros x y Hx Hy. apply spec_missing_u_In in Hx, Hy.
+    destruct Hx as (? & ? & ? & _), Hy as (? & ? & ? & _). unfold u16. lia.
+  - unfold spec_missing_u. apply NoDup_filter, NoDup_zrange.
+Qed.
+
+Theorem missing_NoDup sz m0 l skip :
+  new_log sz = Some m0 -> all_u16 l -> 0 <= skip < 65536 -> NoDup (missing (add_all m0 l) skip).
+Proof.
+  intros Hn Hl Hk. rewrite (missing_exact sz m0 l skip Hn Hl Hk).
+  apply spec_missing_NoDup; [eapply new_log_valid; eauto|lia].
+Qed.
